@@ -181,8 +181,10 @@ def caseOf? : Term → Option Case
       pure (.hist (← globalOf? g) (normGroups (← gs.mapM groupOf?)) (← ps.mapM peerOf?) (← ops.mapM opOf?))
   | _ => none
 
-/-- run-time guard of the drivers: the well-formedness the master theorem assumes (`Props.CaseWF`).
-    `caseOf?` only produces such cases; the guard makes that independent of the parser. -/
+/-- run-time guard of the drivers: the well-formedness the master theorem assumes (`Props.CaseWF`:
+    octets, confederation identifier, no delete-on-disconnect mark), and what the case format can
+    express (an `api` neighbour is something an AddPeer request can say; a `cfg` hold time fits
+    the parameter the loaders produce). -/
 def octetsOk (l : List Nat) : Bool := l.all fun x => x < 256
 
 def distinctKeys : List (Nat × Nat) → Bool
